@@ -82,7 +82,28 @@ pub fn issuer_public_bytes(alg: Alg, idx: usize) -> Vec<u8> {
     }
 }
 
-/// Holder key algorithms: only ES256 and EdDSA (a JWK in `cnf`).
+/// DER (SubjectPublicKeyInfo) bytes of an asymmetric issuer public key.
+pub fn issuer_public_der(alg: Alg, idx: usize) -> Vec<u8> {
+    use base64::Engine;
+    let pem = String::from_utf8(issuer_public_bytes(alg, idx)).unwrap_or_default();
+    let b64: String = pem.lines().filter(|l| !l.starts_with("-----")).collect();
+    base64::engine::general_purpose::STANDARD.decode(b64).unwrap_or_default()
+}
+
+/// The raw key material jsonwebtoken keeps for an asymmetric public key: the 65-byte
+/// uncompressed P-256 point, or the 32-byte Ed25519 key (the tail of the SPKI DER).
+pub fn issuer_public_raw(alg: Alg, idx: usize) -> Vec<u8> {
+    let der = issuer_public_der(alg, idx);
+    let n = match alg {
+        Alg::ES256 => 65,
+        Alg::EdDSA => 32,
+        Alg::HS256 => return issuer_public_bytes(alg, idx),
+    };
+    der[der.len().saturating_sub(n)..].to_vec()
+}
+
+/// Holder key algorithms: only ES256 and EdDSA (a JWK in `cnf`). All four holder JWKs carry the
+/// SAME `kid` on purpose (a key id does not identify key material).
 pub fn holder_enc(alg: Alg, idx: usize) -> EncodingKey {
     match alg {
         Alg::ES256 => EncodingKey::from_ec_pem(ESH_PRIV[idx].as_bytes()).expect("esh key"),
